@@ -14,7 +14,9 @@
 #include <stdio.h>
 #include <stdlib.h>
 #include <string.h>
+#include <sys/personality.h>
 #include <sys/prctl.h>
+#include <sys/resource.h>
 #include <sys/stat.h>
 #include <sys/syscall.h>
 #include <sys/utsname.h>
@@ -134,6 +136,7 @@ int main(int argc, char **argv) {
   st[sl] = 0;
   P("\"proc\":%s,", sl > 0 ? "true" : "false");
   statusfield(sl > 0 ? st : NULL, "\nSeccomp:", "seccomp_status");
+  statusfield(sl > 0 ? st : NULL, "\nSeccomp_filters:", "seccomp_filters");
   statusfield(sl > 0 ? st : NULL, "\nNoNewPrivs:", "nnp_status");
   statusfield(sl > 0 ? st : NULL, "\nNSpid:", "nspid");
   statusfield(sl > 0 ? st : NULL, "\nTracerPid:", "tracer");
@@ -152,6 +155,16 @@ int main(int argc, char **argv) {
   char rid[64] = "";
   if (stat("/", &rs) == 0) snprintf(rid, sizeof rid, "%lu:%lu", (unsigned long)rs.st_dev, (unsigned long)rs.st_ino);
   jstr("rootid", rid);
+  // container-sequence family: a syscall the test filters answer with distinct errnos, the NOFILE limit,
+  // one environment variable
+  errno = 0;
+  long pr = syscall(SYS_personality, 0xffffffffUL);
+  P("\"persona_errno\":%d,", pr < 0 ? errno : 0);
+  struct rlimit rl = {0, 0};
+  getrlimit(RLIMIT_NOFILE, &rl);
+  P("\"nofile\":%ld,", (long)(rl.rlim_cur > 0x7fffffff ? 0x7fffffff : rl.rlim_cur));
+  const char *vq = getenv("VQ");
+  jstr("envq", vq ? vq : "");
   P("\"argc\":%d}\n", argc);
 
   int off = 0;
